@@ -22,6 +22,7 @@ import (
 	"sync"
 
 	"verif.local/engine/ev"
+	"verif.local/engine/lib/maporder"
 	"verif.local/engine/polyenv"
 )
 
@@ -60,7 +61,8 @@ func objects(thorough bool) []object {
 			}
 			var raw []byte
 			var err error
-			if _, pan := ev.Guard(func() { raw, err = c.enc(deepCopy(p)) }); pan || err != nil {
+			// map iteration pinned: parent and children must derive the same case list even from an order-dependent encoder
+			if _, pan := ev.Guard(func() { maporder.Run(nil, 0, func() { raw, err = c.enc(deepCopy(p)) }) }); pan || err != nil {
 				continue // reported by the in-process part
 			}
 			if seen[string(raw)] {
@@ -306,6 +308,12 @@ func runShard(tier string, k, n, total int, out chan<- childEvent, st *shardStat
 			switch {
 			case strings.HasPrefix(ln, "S "):
 				last = atoi(ln[2:])
+				if last >= len(caseObj) {
+					out <- childEvent{idx: -1, class: "harness", detail: "child enumerates a different case list than the parent"}
+					cmd.Process.Kill()
+					cmd.Wait()
+					return
+				}
 			case ln == "A":
 				st.acc[int(caseObj[last])]++
 			case ln == "E":
